@@ -8,7 +8,7 @@ Oracle : runs computed with != on consecutive predicate values: every item in ex
 """
 import itertools
 
-from ..common import Check, Outcome, bootstrap, interleave, with_prelude, prelude_tags, shrink_prelude, PRELUDE_TAGS
+from ..common import Check, Outcome, bootstrap, interleave, with_prelude, prelude_tags, shrink_prelude, PRELUDE_TAGS, PRELUDE_RULE
 from .. import windows, model, progs
 
 rs = bootstrap()
@@ -50,6 +50,7 @@ class C06(Check):
             'blocks so a value can come back later (A,B,A = three segments), x 5 predicates returning fresh equal-but-not-identical objects (int, 1-tuple, str, '
             'int > 2^40, int > 2^53 whose neighbours round to the same double, float, numpy.int64 / numpy.float64 (whose != returns numpy.bool_), bool, None / int mix, negative ints, parity); then random long inputs under group_by with interleaved keys, nested in roll (w != s, w == s), split, time_split, group_by>roll. '
             'non-trivial = some key lifetime has >= 2 segments; distinct = hash of the case')
+    RULE += PRELUDE_RULE
     ASSUMPTIONS = ['predicate values are compared with != only (no hashing)']
     ANCHORS = ['rxsci/data/split.py', 'rxsci/operators/multiplex.py']
     REQUIRED_TAGS = ['top', 'group', 'roll', 'roll_eq', 'split', 'pred=divt', 'pred=divs', 'pred=divbig', 'pred=divhuge', 'pred=divnp', 'pred=divbool', 'pred=divnone', 'single-run', 'runs-of-1', 'empty-key'] + PRELUDE_TAGS
